@@ -4,6 +4,7 @@
    <id> P <repro> <prefix> <tree> | <tree>             are the two descriptors equal
    <id> M <forceCAS> <ignoreNoName> <pushed> <layers>  names existing after the copy
    <id> U <umask> <preserve> <ck> <dok> <sok> <prefix> <tree>   Push verdict under an altered descriptor
+   <id> F <umask> <prefix> <hex>                        a plain file pushed under its own descriptor
    prefix = hex components joined by '/', tree = D mode mtime n (name tree)* | F mode mtime hex | L mtime hex
    a trailing token starting with '#' (the scenario, for replays) is ignored. *)
 let comps (s : string) : n list list =
@@ -78,9 +79,19 @@ let () =
     | id :: "X" :: umask :: preserve :: pre :: toks ->
       let (t, _) = parse_tree toks in
       let es = tar_entries (comps pre) false t in
+      (* B1 = the hypotheses of the round-trip theorems hold for this tree *)
+      let hyp = if is_dir t && wf_treeb t && modes_okb t && benign_tree t then "B1" else "B0" in
       (match extract (comps pre) (n_of_int (int_of_string umask)) (preserve = "1") es with
-       | Ok f -> Printf.printf "%s OK %s\n" id (show_fs f)
-       | Err e -> Printf.printf "%s %s\n" id (show_err e))
+       | Ok f -> Printf.printf "%s %s OK %s\n" id hyp (show_fs f)
+       | Err (XAbsLink | XWriteThrough) -> Printf.printf "%s UNJUDGED\n" id
+       | Err e -> Printf.printf "%s %s %s\n" id hyp (show_err e))
+    | [id; "F"; umask; pre; h] ->
+      let c = str_of_hex h in
+      let hh (s : n list) = s in
+      let d = file_descriptor hh (comps pre) c in
+      (match push_file hh (fun a b -> a = b) (n_of_int (int_of_string umask)) d c with
+       | Ok (NFile (c', m)) -> Printf.printf "%s FILE %o %s\n" id (int_of_n m) (hex_of_str c')
+       | _ -> Printf.printf "%s ERR\n" id)
     | id :: "P" :: repro :: pre :: toks ->
       let (ta, rest) = parse_tree toks in
       (match rest with
